@@ -8,7 +8,7 @@ from .. import karr
 from ..absint import Interp, ObjV
 from ..cfg import CFG
 from ..forms import Const, Form, fpow, mk_fn, is_real_form
-from ..rules import PI, S, body_nodes, parents
+from ..rules import PI, S, body_nodes, parents, check_late_binding
 from ..srcmodel import src_of
 
 EXPLANATION = (
@@ -258,6 +258,7 @@ def run(ctx):
     rule_shortcut(ctx, fi, it)
     # the noise-free output is built from the propagated field with the input's layout
     outs = [o for o in it.outcomes if o.kind == "return"]
+    check_late_binding(ctx, "C08.5", ["devices.FIBER"])
     ctx.require_min("C08.1", 1)
     ctx.require_min("C08.2", 2)
     ctx.require_min("C08.3", 1)
